@@ -1,6 +1,6 @@
 /- op "c08": the exporter model, the SBML reading of its output and the original model's meaning.
 
-request  {"op":"c08","model":<PyModel>,"states":[[[var,"q"],..],..]}
+request  {"op":"c08","model":<PyModel>,"states":[[[var,"q"],..],..],"compartments": null | [[id,"size"],..]}
 answer   {"unsupported": bool,
           "export": {"err": <class>} | {"ok": <SDoc>},
           "names":  [[orig, imported], ..]      (variables, parameters, derived, reactions)
@@ -11,6 +11,8 @@ request  {"op":"c08","escape":[id,prefix]} → {"escape": {"ok":s}|{"err":..}, "
 -/
 import Driver.Wire
 import MxlVerif.Model.C08Doc
+import MxlVerif.Model.C08Compartment
+import MxlVerif.Model.C08Language
 open Lean Mxl Mxl.Wire Mxl.C08
 namespace Driver.H_c08
 
@@ -151,6 +153,14 @@ def sdocJ (d : SDoc) : Json :=
               ("inits", assocJ mathJ d.inits), ("rules", assocJ mathJ d.rules),
               ("rxns", .arr (d.rxns.map srxnJ).toArray)]
 
+def sspeciesJ (x : SSpecies) : Json :=
+  .arr #[.str x.id, .str x.compartment, .bool x.hosu, .str (if x.initAmount then "amount" else "concentration")]
+
+/-- the document of `writeModel`: the components of `exportModel` plus compartments and species attributes -/
+def sdoccJ (dc : SDocC) : Json :=
+  (sdocJ dc.doc).mergeObj (Json.mkObj [("compartments", assocJ ratJ dc.compartments),
+                                      ("species_attrs", .arr (dc.species.map sspeciesJ).toArray)])
+
 /-- no exact value for sqrt, ln, sin, … : such results are reported as null -/
 def noInterp : Interp := fun _ _ => none
 
@@ -170,6 +180,11 @@ def handleModel (j : Json) : Except String Json := do
       ++ m.derived.map (·.2) ++ m.rxns.map (·.fn)
       ++ (m.rxns.flatMap fun r => r.stoich.filterMap fun kv => match kv.2 with | .computed f => some f | _ => none)
     fns.any fun f => bodyUnsupported f.body
+  let inLanguage :=
+    let fns := (m.params ++ m.vars).filterMap (fun kv => match kv.2 with | .ia f => some f | _ => none)
+      ++ m.derived.map (·.2) ++ m.rxns.map (·.fn)
+      ++ (m.rxns.flatMap fun r => r.stoich.filterMap fun kv => match kv.2 with | .computed f => some f | _ => none)
+    fns.all fun f => bodyInLanguage f.body && f.params.length == f.args.length
   -- original model
   let specInit := (varNames ++ m.params.map (·.1)).map fun n => (n, pyInit noInterp m m.fuel n)
   let specAt := states.map fun st =>
@@ -180,8 +195,19 @@ def handleModel (j : Json) : Except String Json := do
     if varNames.contains n then "CPD" else if (m.params.map (·.1)).contains n then "PAR"
     else if (m.derived.map (·.1)).contains n then "AR" else "RXN"
   let names := allNames.map fun n => (n, importedName (kindOf n) n)
-  let ex := exportModel m
-  let base := [("unsupported", Json.bool unsupported), ("export", exJ sdocJ ex),
+  -- `write(model, file, compartments=…)`; the option is absent (null) or a list of (id, size)
+  let comps ← match j.getObjVal? "compartments" with
+    | .ok .null => pure none
+    | .ok cj => (jAssoc jRat cj).map some
+    | .error _ => pure none
+  let wr := writeModel m comps
+  -- the component part, computed on its own: `exportModel` (references avoid the component names) and `exportModelFrom`
+  -- with the names `_create_sbml_reactions` starts from (compartment ids included)
+  let plain := exportModel m
+  let from_ := (chooseCompartments m.names comps).bind fun cs => exportModelFrom (refTaken m cs) m
+  let ex := wr.map (·.doc)
+  let base := [("unsupported", Json.bool unsupported), ("in_language", Json.bool inLanguage), ("export", exJ sdoccJ wr),
+               ("export_plain", exJ sdocJ plain), ("export_from", exJ sdocJ from_),
                ("names", assocJ Json.str names), ("spec", spec)]
   match ex with
   | .error _ => pure (Json.mkObj base)
